@@ -139,6 +139,17 @@ def cases(rng, tier):
             lines = ["alias %s = %s;" % (nm, txt) for txt, nm in g.aliases.items()] + lines
         out.append({"wgsl": "\n".join(lines) + "\n", "family": "encase_glam", "opts": {"encase": True, "mv": "Glam"},
                     "tys": structs + ([rts] if rts else []) + extra, "rts_lengths": [0, 1, 3]})
+    # the other derive switches on top of encase + glam must not change how encase sees the fields: small structs around
+    # mat2x2 / vec2 / scalars, with bytemuck host-shareable (and serde) on as well
+    for i in range({"quick": 8, "search": 16, "thorough": 40}[tier]):
+        pool = [("scale", Ty("scalar", s="f32")), ("uv_transform", Ty("mat", c=2, r=2, s="f32")), ("offset", Ty("vec", n=2, s="f32")),
+                ("id", Ty("scalar", s="u32")), ("rot", Ty("mat", c=2, r=2, s="f32")), ("k", Ty("scalar", s="f32"))]
+        ms = rng.sample(pool, rng.randint(2, 4))
+        st = Ty("struct", name="Sprite", members=ms, has_rts=False)
+        g = structgen.Gen(rng)
+        w = g.render_struct(st) + "\n@group(0) @binding(0) var<storage, read_write> sprites: array<Sprite, 3>;\n@compute @workgroup_size(1) fn main() {}\n"
+        out.append({"wgsl": w, "family": "encase_glam_with_bytemuck", "opts": {"encase": True, "mv": "Glam", "bm_host": True, "serde": i % 2 == 0},
+                    "tys": [st], "rts_lengths": [0], "may_not_compile": True})
     return out
 
 
@@ -162,6 +173,8 @@ def b_python(c, r):
     if r.get("result") != "ok":
         return True, ""
     obs = r.get("obs") or {}
+    if c.get("may_not_compile") and obs.get("obs", 1) is None:
+        return True, "rejected at compile time by the bytemuck layout assertions (permitted)"
     enc = obs.get("encase")
     if not isinstance(enc, dict):
         return False, "no encase observations: %s" % (obs.get("why") or obs.get("probe_compile_errors") or obs.get("probe_panic"))
